@@ -160,10 +160,11 @@ def _verus_prop(prop, tier, seed, unit_filters, meta_extra, extra_obs=None):
 
 
 def c02(tier, seed):
-    return _verus_prop("C02", tier, seed, [("layout", None, None), ("prim_types", None, None), ("packed", None, None)], {
+    return _verus_prop("C02", tier, seed, [("layout", None, None), ("prim_types", None, None), ("packed", None, None), ("repr", None, None)], {
         "trusted_base": LAYOUT_TRUST,
         "functions_under_contract": LAYOUT_FNS + [
             "bindgen/codegen/helpers.rs: ast_ty::int_kind_rust_type, ast_ty::float_kind_rust_type (unit prim_types: fixed-width kinds get a Rust integer of the same width and sign; platform kinds the std::os::raw alias documented as equivalent; wchar_t / long double / __float128 a type of exactly the C size)",
+            "bindgen/codegen/mod.rs: the `packed` representation-hint decision of CompInfo::codegen (unit repr, statement extracted by rule R18: packed(N) exactly for packed, non-opaque records whose packed is not redundant next to an explicit align)",
             "bindgen/ir/comp.rs: CompInfo::already_packed (unit packed: Some(true) exactly when dropping `packed` moves no field), CompInfo::is_packed (attribute, or a member more aligned than the record, or a vtable in a 1-aligned record)"],
         "assumptions": [
             "placement theorem (saw_field_with_layout post#4) region: not packed, not a union, clang reported the field offset (multiple of 8 bits, >= running offset, multiple of the field alignment), the Rust struct built so far ends at the tracker's running offset and that is a multiple of the previous field's alignment; the Rust type of the field has the alignment clang reports",
@@ -180,10 +181,11 @@ def c02(tier, seed):
 
 def c10(tier, seed):
     return _verus_prop("C10", tier, seed, [("layout", r"::(blob|Layout::known_type_for_size|Layout::for_size_internal|Layout::for_size|integer_type|bitfield_unit|Layout::new|align_to)::", None),
-                                           ("constrain", r"::CannotDerive::constrain_type::", None), ("blocklist", None, None)], {
+                                           ("constrain", r"::CannotDerive::constrain_type::", None), ("blocklist", None, None), ("repr", None, None)], {
         "trusted_base": LAYOUT_TRUST,
         "functions_under_contract": ["bindgen/codegen/helpers.rs: blob, integer_type, bitfield_unit", "bindgen/ir/layout.rs: Layout::{known_type_for_size, new, for_size_internal, for_size}",
                                      "bindgen/ir/item.rs: Item::is_blocklisted",
+                                     "bindgen/codegen/mod.rs: the `packed` decision of CompInfo::codegen (an opaque blob never carries `packed` next to its repr(align))",
                                      "bindgen/ir/analysis/derive.rs: CannotDerive::constrain_type (first rule: an item outside the allowlisted set gets exactly what blocklisted_type_implements_trait says, before any other rule)"],
         "assumptions": [
             "blocklist test (Item::is_blocklisted == hidden || in a blocklisted file || generic item list || the list of its own kind || replaced type), with regex matching and path computation uninterpreted",
